@@ -390,6 +390,7 @@ def escape_and_reuse(tier, seed):
     import os
     rng = random.Random(seed if os.environ.get('VERIF_EXPLORE') else 20260925)
     docs = _documents()
+    seed_set = set(SEED_EXPRS)
     fam, n, nparse = {}, 0, 0
 
     def bad(k, **w):
@@ -446,7 +447,7 @@ def escape_and_reuse(tier, seed):
                 shared = P(namespaces={'x': 'urn:x', 'p': 'urn:p'})
             if tok[0] is None:
                 continue
-            for d in docs[: (2 if tier == 'quick' else 3)]:
+            for d in (docs if e in seed_set else docs[: (2 if tier == 'quick' else 3)]):        # hand-written expressions meet every document (incl. the lxml one)
                 if d is None and version == '1.0':
                     continue
                 n += 1
